@@ -22,6 +22,11 @@
 (*                      the child, which has exec'ed and runs the program, and says Err     *)
 (*   "EintrReturnsAtOnce" the same, but Err(EINTR) is returned at once: the child is alive   *)
 (*                      and goes on to exec, un-owned                                       *)
+(*   "ExecveRetriesEtxtbsy" execve is repeated while it says ETXTBSY (a blind mutant): if   *)
+(*                      the condition does not go away the forked copy of the caller spins  *)
+(*                      for ever and spawn never returns                                    *)
+(*   "ChildClosesDupSource" the child closes the source after each dup2 (a blind mutant):   *)
+(*                      with RawFd(1) for stderr ("2>&1") the program loses its stdout      *)
 (* Dev = {} is the code as it stands after the `fix:` commits (see notes/C13.md).           *)
 EXTENDS SpawnAbs, TLC
 
@@ -38,7 +43,11 @@ EINVAL == 22
 HelperStatus == 7 * 256    \* the helper program exits with 7
 ECHILD == 10
 NoStatus == -1             \* Process.status = None
-NoFault == [p |-> "-", sys |-> "-", k |-> 0, err |-> 0]
+NoFault == [p |-> "-", sys |-> "-", k |-> 0, err |-> 0, persist |-> FALSE]
+ETXTBSY == 26
+FdNames == <<"fd0", "fd1", "fd2">>        \* Stdio::RawFd(0 / 1 / 2): a standard descriptor of the caller itself
+IsStdFd(m) == m \in {"fd0", "fd1", "fd2"}
+StdFdIndex(m) == CHOOSE k \in 1..3 : FdNames[k] = m
 ArgTok == <<"a1", "a2">>
 EnvTok == <<"e1=x", "e2=y">>
 PEnv   == <<"pe=1">>
@@ -73,7 +82,8 @@ AbsCfg(c) == [bin |-> IF c.prog = "ok" THEN "bin" ELSE "nobin",
               uid |-> CASE c.uid = "unset" -> UnsetId [] c.uid = "own" -> 0 [] OTHER -> OtherId, puid |-> 0,
               gid |-> CASE c.gid = "unset" -> UnsetId [] c.gid = "own" -> 0 [] OTHER -> OtherId, pgid |-> 0,
               pg |-> IF c.pg = "unset" THEN UnsetId ELSE 0,
-              io |-> c.io]
+              \* in the model a stream is named by the caller's description it must end up on
+              io |-> [k \in 1..3 |-> IF c.io[k] = "inherit" THEN FdNames[k] ELSE c.io[k]]]
 
 NoImage == [prog |-> "-", argv |-> << >>, envp |-> << >>, cwd |-> "-", io |-> <<"-", "-", "-">>,
             uid |-> 0, gid |-> 0, pg |-> "-"]
@@ -86,7 +96,7 @@ FreshSpawn ==
     /\ cnt' = [p \in {"P", "C"} |-> [s \in SysNames |-> 0]]
     /\ hist' = [p \in {"P", "C"} |-> << >>]
     /\ F' = {}
-    /\ im' = [io |-> <<"inherit", "inherit", "inherit">>, cwd |-> "cwd0", uid |-> 0, gid |-> 0, pg |-> "parent"]
+    /\ im' = [io |-> FdNames, cwd |-> "cwd0", uid |-> 0, gid |-> 0, pg |-> "parent"]
     /\ ci' = 1
     /\ cerr' = 0
     /\ perr' = 0
@@ -117,7 +127,7 @@ Init ==
     /\ fired = FALSE
     /\ hist = [p \in {"P", "C"} |-> << >>]
     /\ F = {}
-    /\ im = [io |-> <<"inherit", "inherit", "inherit">>, cwd |-> "cwd0", uid |-> 0, gid |-> 0, pg |-> "parent"]
+    /\ im = [io |-> FdNames, cwd |-> "cwd0", uid |-> 0, gid |-> 0, pg |-> "parent"]
     /\ ci = 1
     /\ cerr = 0
     /\ perr = 0
@@ -134,7 +144,9 @@ Init ==
     /\ waits = NoWaits
 
 (* ---- bookkeeping of one system call ---------------------------------------------------- *)
-Hit(p, s) == ~fired /\ fault.p = p /\ fault.sys = s /\ fault.k = cnt[p][s] + 1
+\* one-shot: the k-th call fails; persistent: the k-th and every later one (a failure that does not go away)
+Hit(p, s) == /\ fault.p = p /\ fault.sys = s
+             /\ IF fault.persist THEN cnt[p][s] + 1 >= fault.k ELSE ~fired /\ fault.k = cnt[p][s] + 1
 \* the errno with which the call fails (0 = it succeeds); nat = its natural outcome
 Res(p, s, nat) == IF Hit(p, s) THEN fault.err ELSE nat
 Did(p, s, e) ==
@@ -198,7 +210,7 @@ SetupIo ==
        ELSE LET m == cfg.io[bi]
                 s == IF m = "pipe" THEN "pipe2" ELSE "openat"
                 e == Res("P", s, 0)
-            IN  IF m \in {"inherit", "raw"}
+            IN  IF m \in {"inherit", "raw"} \/ IsStdFd(m)
                 THEN /\ theirs' = [theirs EXCEPT ![bi] = m]
                      /\ bi' = bi + 1
                      /\ UNCHANGED <<pc, perr, pres>>
@@ -402,10 +414,17 @@ Dup2 ==
        THEN /\ ci' = ci + 1
             /\ UNCHANGED <<pc, im, cerr, returns, child>>
             /\ NoCall
-       ELSE LET e == Res("C", "dup3", 0)
+       ELSE LET src == theirs[ci]
+                \* dup2(fd, fd) is done with dup3, which refuses equal descriptors
+                e == Res("C", "dup3", IF IsStdFd(src) /\ StdFdIndex(src) = ci THEN EINVAL ELSE 0)
+                \* what the target refers to afterwards: for a standard descriptor of the caller, whatever
+                \* that descriptor refers to IN THE CHILD BY NOW (an earlier dup2 may have replaced it)
+                val == IF IsStdFd(src) THEN im.io[StdFdIndex(src)] ELSE src
+                io1 == [im.io EXCEPT ![ci] = val]
+                io2 == IF "ChildClosesDupSource" \in Dev /\ IsStdFd(src) THEN [io1 EXCEPT ![StdFdIndex(src)] = "closed"] ELSE io1
             IN  /\ Did("C", "dup3", e)
                 /\ IF e = 0
-                   THEN /\ im' = [im EXCEPT !.io[ci] = theirs[ci]]
+                   THEN /\ im' = [im EXCEPT !.io = io2]
                         /\ ci' = ci + 1
                         /\ UNCHANGED <<pc, cerr, returns, child>>
                    ELSE /\ ChildFail(e)
@@ -460,7 +479,9 @@ EnvUsed == CASE envmode = "inherit" -> PEnv          \* crate::env::ENV.env_p
 
 Execve ==
     /\ pc.C = "c_exec"
-    /\ LET e == Res("C", "execve", IF cfg.prog = "missing" THEN ENOENT ELSE 0)
+    /\ LET e == Res("C", "execve", CASE cfg.prog = "missing" -> ENOENT [] cfg.prog = "busy" -> ETXTBSY [] OTHER -> 0)
+           \* does the failure go away when the call is repeated ?
+           lasting == (cfg.prog = "busy" /\ ~Hit("C", "execve")) \/ (Hit("C", "execve") /\ fault.persist)
        IN  /\ Did("C", "execve", e)
            /\ IF e = 0
               THEN /\ execd' = TRUE
@@ -470,6 +491,10 @@ Execve ==
                    /\ pipe' = [pipe EXCEPT !.w = @ \ {"C"}, !.r = @ \ {"C"}]   \* O_CLOEXEC
                    /\ Goto("C", "prog")
                    /\ UNCHANGED cerr
+              ELSE IF e = ETXTBSY /\ "ExecveRetriesEtxtbsy" \in Dev
+              THEN \* deviation: try again - for ever ("spin": nothing is enabled any more) if the cause stays
+                   /\ Goto("C", IF lasting THEN "spin" ELSE "c_exec")
+                   /\ UNCHANGED <<cerr, execd, image, child, pipe>>
               ELSE /\ cerr' = IF "ExecveNegErrno" \in Dev THEN 0 - e ELSE e
                    /\ Goto("C", "c_write")
                    /\ UNCHANGED <<execd, image, child, pipe>>
@@ -545,7 +570,13 @@ VectorsTerminated == Terminated(argv) /\ (envmode = "provided" => Terminated(env
 \* what the caller has configured by now: a builder step between the two spawns counts for the second
 AbsCfgNow == [AbsCfg(cfg) EXCEPT !.args = IF round = 2 /\ cfg.respawn = "arg" THEN Append(@, "a3") ELSE @]
 AbsViolated == Violated(AbsCfgNow, Obs, Terminal)
-AbsHolds == AbsViolated = {}
+\* KNOWN FINDING (genuine, see notes/C13.md): the child applies dup2(stdin), dup2(stdout), dup2(stderr) one
+\* after the other on its own descriptor table, so a Stdio::RawFd naming a standard descriptor that an
+\* EARLIER slot has already replaced picks up the replacement instead of the caller's descriptor
+\* (stdin(RawFd(1)) + stdout(RawFd(0)) gives the program the caller's fd 1 on both).
+SourceOverwritten(c) == \E s \in 2..3, j \in 1..2 : j < s /\ c.io[s] = FdNames[j] /\ c.io[j] \notin {"inherit", FdNames[j]}
+KnownInModel == IF SourceOverwritten(cfg) THEN {"OkMeansConfigured"} ELSE {}
+AbsHolds == AbsViolated \ KnownInModel = {}
 
 \* "the parent never blocks forever on the sync pipe" = absence of deadlock (CHECK_DEADLOCK
 \* TRUE; Terminal states stutter)
